@@ -298,7 +298,7 @@ def run(ctx):
     if res['model_ok'] and tie_broken is None:
         lits = [caselit(o) for _, o in good]
         bad, errs = vlib.coq_bad_indices('C05', IMPORTS, 'CaseT', 'chk', lits,
-                                         shard=max(8, (len(lits) + 15) // 16), preamble=PREAMBLE)
+                                         shard=min(60, max(8, (len(lits) + 15) // 16)), timeout=2400, preamble=PREAMBLE)
         ctx.count('model-vs-impl(vm_compute)', len(lits), [('agree', len(lits) - len(bad))])
         for e in errs:
             tie_broken = 'case evaluation failed: ' + e[:400]
